@@ -39,7 +39,7 @@ def asl_seeds(d, max_len):
     return n
 
 
-def campaign(seed, seconds, workers_per_target=2, max_len=4096, asl_workers=6):
+def campaign(seed, seconds, workers_per_target=2, max_len=4096, asl_workers=6, keep=None):
     """returns (artifacts: list of (tool, path kind, bytes), stats per tool)"""
     fuzzbuild.build_all()
     base = run.mkwork("fuzzcamp")
@@ -93,6 +93,12 @@ def campaign(seed, seconds, workers_per_target=2, max_len=4096, asl_workers=6):
                 b = open(f, "rb").read()
                 if 0 < len(b) <= 1 << 16:
                     arts.append((tool, kind, b))
+    if keep:
+        # development aid: keep the grown corpora (to be minimised into fuzz/seeds/<tool>)
+        for tool in fuzzbuild.TARGETS:
+            dst = os.path.join(keep, tool)
+            shutil.rmtree(dst, ignore_errors=True)
+            shutil.copytree(os.path.join(base, tool, "corpus"), dst)
     shutil.rmtree(base, ignore_errors=True)
     for dd in glob.glob("/dev/shm/vf-fz-*"):
         shutil.rmtree(dd, ignore_errors=True)
